@@ -278,6 +278,19 @@ func runCheck(e *env, p *propSpec, tier string) int {
 			break
 		}
 		_, o := e.runOne(sp)
+		if clause, site, detail, ok := stallKind(o); ok && p.owns(clause) {
+			v := rt.Violation{Clause: clause, Site: site, Detail: detail}
+			if knownLine(known, p.ID, v) != "" {
+				fmt.Printf("KNOWN-FINDING: property=%s %s\n", p.ID, knownLine(known, p.ID, v))
+				continue
+			}
+			path := writeReplay(p, sp.Seed, rt.Result{Params: sp}, v, "not minimised (the run does not complete)")
+			fmt.Printf("VIOLATION property=%s replay=%s\n", p.ID, path)
+			fmt.Printf("  clause=%s site=%s %s\n", clause, site, v.Detail)
+			nViol++
+			exit = 1
+			continue
+		}
 		if (o.crashed || o.timedOut) && crashLooksLikeSUT(o.log) && (p.owns("C14.") || p.owns("C07.")) {
 			clause := "C14.crash"
 			v := rt.Violation{Clause: clause, Site: "process", Detail: "the process running the server code died: " + trimLines(firstFatal(o.log), 12)}
@@ -856,4 +869,40 @@ func selftest(e *env, args []string) int {
 	}
 	fmt.Println("selftest: determinism OK")
 	return 0
+}
+
+// stallKind classifies a run that did not complete (the worker's stall
+// watchdog or the driver's timeout fired) from the goroutine dump: a handler
+// of the code under test panicked and the run then wedged, or goroutines of
+// the code under test are blocked for ever on a cache mutex.
+func stallKind(o batchOutcome) (clause, site, detail string, ok bool) {
+	if !o.timedOut {
+		return
+	}
+	if i := strings.Index(o.log, "verif: handler panic: "); i >= 0 {
+		line := o.log[i+len("verif: handler panic: "):]
+		if j := strings.IndexByte(line, '\n'); j >= 0 {
+			line = line[:j]
+		}
+		return "C14.panic", "handler/then-stalled", "handler panicked: " + line + "; afterwards the run made no progress (goroutines blocked on a mutex the dead handler held)", true
+	}
+	for _, blk := range strings.Split(o.log, "\n\n") {
+		if !strings.HasPrefix(blk, "goroutine ") || !strings.Contains(blk, "sync.(*Mutex).Lock") && !strings.Contains(blk, "sync.(*RWMutex).") {
+			continue
+		}
+		lines := strings.Split(blk, "\n")
+		for _, l := range lines {
+			if strings.Contains(l, "buchgr/bazel-remote/v2/") && !strings.HasPrefix(l, "\t") {
+				fn := l
+				if j := strings.LastIndexByte(fn, '('); j > 0 {
+					fn = fn[:j]
+				}
+				if j := strings.LastIndexByte(fn, '/'); j >= 0 {
+					fn = fn[j+1:]
+				}
+				return "C07.deadlock", "mutex-wedge", "no progress: a goroutine of the code under test is blocked for ever acquiring a mutex in " + fn, true
+			}
+		}
+	}
+	return
 }
